@@ -198,9 +198,16 @@ let () =
             "D" ^ d ^ "/S" ^ (match b with None -> "-" | Some (i, o) -> zs i ^ ":" ^ fmt_out o)
             ^ "/G" ^ opt zs g) l @ [fmt_cache ss]) in
         let from st = match run_case_st st mbase msize extra qs with Ret l -> render st l | r -> fail r in
+        (* the table is printed (and the queries are answered) from the table built with the function COMPILED from the
+           Line::Function arm of finish_item (Driver.table_of_src); where the hand-written build_symtab gives another table
+           (never on the unchanged tree: c11_compiled_build_symtab) both are shown *)
         let ans =
           match table_of rf with
-          | Ret st -> from st
+          | Ret st ->
+              (match table_of_src Debug rf with
+               | Ret st2 when fmt_table st2 = fmt_table st -> from st
+               | Ret st2 -> from st2 ^ "!hand-written-table=" ^ fmt_table st
+               | r -> "P;;compiled finish_item: " ^ fail r)
           | r -> fail r in
         (* the same from the text (skipped for very long texts: C09's recogniser works byte by byte on Coq integers) *)
         let ans =
